@@ -111,7 +111,7 @@ func (w *World) probe(l Line) string {
 	var parts []string
 	for _, id := range w.feedIDs() {
 		f := w.feeds[id]
-		if f.coll != lab {
+		if !f.onColl(lab) {
 			f.mu.Lock()
 			extra := len(f.events) - before[id]
 			f.mu.Unlock()
